@@ -225,7 +225,7 @@ def gamma13(tier, seed):
         cands = factorings(base, rnd, per_base) + two_macro_variants(base, rnd)
         for n, (kind, macros, pat) in enumerate(cands):
             sp = splits(macros)
-            if tier == "quick":
+            if tier == "quick" and len(macros) < 2:
                 sp = [sp[0], sp[-1]] if len(sp) > 1 else sp
             for k, (extra, infile) in enumerate(sp):
                 doc_a = {"pattern": pat}
